@@ -188,3 +188,37 @@ theorem noPanic_hereditary : ∀ s : Stage, s.noPanic = true → ∀ c ∈ s.chi
   fun s h => ((Stage.noPanic_iff s).mp h).2
 
 end LinVerif.Pipeline
+
+namespace LinVerif.Pipeline
+
+/-- the instruction is not a panic that loses completions: a panicking execution is allowed only as
+the sole instruction of a pooled task (`execTask` recovers it and completes the task's stage) -/
+def Instr.safeExec (pooled : Bool) (rest : List Instr) : Instr → Prop
+  | .exec s => s.out ≠ .panic ∨ (pooled = true ∧ rest = [])
+  | _ => True
+
+theorem stepInstr_owed_eq' (cfg : Cfg) (sh : Shared) (pooled : Bool) (i : Instr) (rest : List Instr)
+    (hnp : i.safeExec pooled rest) :
+    sh.pending + (csum Instr.owed (stepInstr cfg sh pooled i rest).code : Int)
+        + (tsum Instr.owed (stepInstr cfg sh pooled i rest).spawn : Int)
+      = (stepInstr cfg sh pooled i rest).sh.pending + (csum Instr.owed (i :: rest) : Int) := by
+  cases i <;> simp only [stepInstr] <;> (repeat' split) <;> simp_all [Instr.owed, Instr.safeExec] <;> omega
+
+/-- pending calls of `complete` appear exactly when an instruction brings `pending` to zero -/
+theorem stepInstr_fires (cfg : Cfg) (sh : Shared) (pooled : Bool) (i : Instr) (rest : List Instr)
+    (hi : i.fires = 0) (hr : csum Instr.fires rest = 0) (hnp : i.safeExec pooled rest) (hp0 : 0 ≤ sh.pending) :
+    tsum Instr.fires (stepInstr cfg sh pooled i rest).spawn = 0 ∧
+    ((stepInstr cfg sh pooled i rest).sh.pending = 0 → sh.pending ≠ 0 →
+        csum Instr.fires (stepInstr cfg sh pooled i rest).code = 1) ∧
+    ((stepInstr cfg sh pooled i rest).sh.pending ≠ 0 ∨ sh.pending = 0 →
+        csum Instr.fires (stepInstr cfg sh pooled i rest).code = 0) ∧
+    (sh.completed = true → (stepInstr cfg sh pooled i rest).sh.completed = true) := by
+  cases i <;> simp only [stepInstr] <;> (repeat' split) <;>
+    simp_all [Instr.fires, Instr.safeExec] <;> omega
+
+/-- `completed` is never reset -/
+theorem stepInstr_completed_mono (cfg : Cfg) (sh : Shared) (pooled : Bool) (i : Instr) (rest : List Instr)
+    (h : sh.completed = true) : (stepInstr cfg sh pooled i rest).sh.completed = true := by
+  cases i <;> simp only [stepInstr] <;> (repeat' split) <;> simp_all
+
+end LinVerif.Pipeline
